@@ -282,6 +282,8 @@ func Join() {
 	}
 }
 
+const replayWatchdog = 150 * time.Second
+
 const (
 	steerStagger  = 120 * time.Millisecond
 	steerHold     = 600 * time.Millisecond
@@ -429,7 +431,11 @@ func RunReplay(t *testing.T, harnesses map[string]func()) {
 		cur = &state{a: a, nameCnt: map[string]int{}, chooseCnt: map[string]int{}, dirs: map[string]string{}, faultCnt: map[string]int{}, crashCnt: map[string]int{},
 			taskOf: map[int64]int{}, parentOf: map[int64]int64{}, opCnt: map[string]int{}}
 		fmt.Printf("VSYM-BEGIN %d\n", k)
-		func() {
+		// the harness runs in its own goroutine under a watchdog: a run that never returns (requests
+		// waiting on each other for ever) is reported instead of hanging the replay
+		done := make(chan struct{})
+		go func() {
+			defer close(done)
 			defer func() {
 				if p := recover(); p != nil {
 					if _, ok := p.(assumeFailed); ok {
@@ -441,6 +447,11 @@ func RunReplay(t *testing.T, harnesses map[string]func()) {
 			}()
 			f()
 		}()
+		select {
+		case <-done:
+		case <-time.After(replayWatchdog):
+			fmt.Println("VSYM-PANIC deadlock: the harness did not return (native watchdog)")
+		}
 		for _, o := range cur.outs {
 			fmt.Printf("VSYM-OUT %s\n", o)
 		}
